@@ -1186,9 +1186,8 @@ func (g *schemaGenerator) generateEnumType(t *schemas.Type, scope nameScope) (co
 	if prim, ok := enumType.(codegen.PrimitiveType); ok && prim.Type == "string" {
 		for _, v := range t.Enum {
 			if s, ok := v.(string); ok {
-				// TODO: Make sure the name is unique across scope.
 				g.output.file.Package.AddDecl(&codegen.Constant{
-					Name:  g.makeEnumConstantName(enumDecl.Name, s),
+					Name:  g.uniqueConstantName(g.makeEnumConstantName(enumDecl.Name, s)),
 					Type:  &codegen.NamedType{Decl: &enumDecl},
 					Value: s,
 				})
@@ -1197,6 +1196,34 @@ func (g *schemaGenerator) generateEnumType(t *schemas.Type, scope nameScope) (co
 	}
 
 	return &codegen.NamedType{Decl: &enumDecl}, nil
+}
+
+// uniqueConstantName makes sure two enum values that normalise to the same identifier
+// (a-b and a_b) are not declared under one constant name.
+func (g *schemaGenerator) uniqueConstantName(name string) string {
+	taken := func(n string) bool {
+		for _, d := range g.output.file.Package.Decls {
+			if c, ok := d.(*codegen.Constant); ok && c.Name == n {
+				return true
+			}
+		}
+
+		return false
+	}
+
+	if !taken(name) {
+		return name
+	}
+
+	for count := 1; ; count++ {
+		suffixed := fmt.Sprintf("%s_%d", name, count)
+		if !taken(suffixed) {
+			g.warner(fmt.Sprintf(
+				"Multiple enum values map to the constant %q; declaring duplicate as %q instead", name, suffixed))
+
+			return suffixed
+		}
+	}
 }
 
 func (g *schemaGenerator) resolveRefs(types []*schemas.Type) ([]*schemas.Type, error) {
